@@ -64,7 +64,7 @@ def charmm_case(rng, ff):
 def run_charmm():
     ff = copy.deepcopy(_vff.get_native_force_field('charmm'))
     rng = chk.rng('charmm')
-    n = 120 if chk.thorough else 25
+    n = 400 if chk.thorough else 25
     for i in range(n):
         seq, mol, expect, exact, unknown = charmm_case(rng, ff)
         resid0 = {k: mol.nodes[k]['resid'] for k in mol.nodes}
